@@ -188,7 +188,11 @@ impl Parser {
 
         match input.as_rule() {
             Rule::dot_function_call => {
-                let Some(function_type) = type_of_property.is_callable_allow_class(true) else {
+                // a class is callable (its constructor) where a module exports it; a *field* typed
+                // with a class holds an instance, which is not
+                let Some(function_type) = type_of_property
+                    .is_callable_allow_class(matches!(lhs_ty, TypeLayout::Module(_)))
+                else {
                     return Err(vec![new_err(
                         ident_span,
                         &source_name,
